@@ -125,7 +125,7 @@ theorem delBind_atMostOne (c : Cfg) (s : St) (h : AtMostOne s) (p cDev : Nat) (c
   repeat' split
   all_goals first | exact h | exact atMostOne_filter s h _ _ rfl
 
-theorem dropPeer_atMostOne (c : Cfg) (s : St) (h : AtMostOne s) (p : Nat) : AtMostOne (dropPeer c s p) :=
+theorem removePeer_atMostOne (c : Cfg) (s : St) (h : AtMostOne s) (p : Nat) : AtMostOne (removePeer c s p) :=
   atMostOne_filter s h _ _ rfl
 
 theorem dropEntity_atMostOne (c : Cfg) (s : St) (h : AtMostOne s) (p : Nat) (ent : List Nat) :
@@ -134,6 +134,18 @@ theorem dropEntity_atMostOne (c : Cfg) (s : St) (h : AtMostOne s) (p : Nat) (ent
   split
   · exact h
   · exact atMostOne_filter s h _ _ rfl
+
+theorem removeEntity_atMostOne (c : Cfg) (s : St) (h : AtMostOne s) (p : Nat) (ent : List Nat) :
+    AtMostOne (removeEntity c s p ent) := by
+  unfold removeEntity
+  split
+  · exact h
+  · split
+    · intro a b
+      exact dropEntity_atMostOne c s h p ent a b
+    · split
+      · exact atMostOne_filter s h _ _ rfl
+      · exact h
 
 theorem binds_sub (s : St) (p : Nat) (ce : List Nat) (cf : Nat) (se : List Nat) (sf t : Nat) :
     (addSub s p ce cf se sf t).1.binds = s.binds := by
@@ -164,8 +176,9 @@ theorem c09_at_most_one (c : Cfg) (loc : List Feat) (rem : Nat → List Feat) (o
       intro a b; have := h a b; simp only [step, onServer, binds_sub] at this ⊢; exact this
     | unsub p cd ce cf se sf =>
       intro a b; have := h a b; simp only [step, onServer, binds_unsub] at this ⊢; exact this
-    | drop p => exact dropPeer_atMostOne c s h p
-    | dropEnt p ent => exact dropEntity_atMostOne c s h p ent
+    | drop p => exact removePeer_atMostOne c s h p
+    | dropEnt p ent => exact removeEntity_atMostOne c s h p ent
+    | bareEnt p ent => intro a b; exact h a b
     | subsPass p ent => intro a b; exact h a b
     | bindsPass p ent => exact atMostOne_filter s h _ _ rfl
 
@@ -215,35 +228,35 @@ theorem c09_unbind_disjunct_refutes :
 
 /-- every entry's client entity belongs to the tree its peer announced -/
 def Sane (s : St) : Prop :=
-  (∀ e ∈ s.subs, ((s.rem e.peer).map (·.ent)).contains e.cEnt = true) ∧
-  (∀ e ∈ s.binds, ((s.rem e.peer).map (·.ent)).contains e.cEnt = true)
+  (∀ e ∈ s.subs, (knownEnts s e.peer).contains e.cEnt = true) ∧
+  (∀ e ∈ s.binds, (knownEnts s e.peer).contains e.cEnt = true)
 
 /-- repaired code: dropping a peer removes all and only that peer's entries -/
 theorem c10_drop_exact (s : St) (hs : Sane s) (p : Nat) :
-    (dropPeer Cfg.clean s p).subs = s.subs.filter (·.peer ≠ p) ∧
-    (dropPeer Cfg.clean s p).binds = s.binds.filter (·.peer ≠ p) := by
+    (removePeer Cfg.clean s p).subs = s.subs.filter (·.peer ≠ p) ∧
+    (removePeer Cfg.clean s p).binds = s.binds.filter (·.peer ≠ p) := by
   constructor
-  · simp only [dropPeer]
+  · simp only [removePeer]
     apply List.filter_congr
     intro e he
     by_cases hp : e.peer = p
     · have := hs.1 e he; rw [hp] at this
-      have hm : ∃ a, a ∈ s.rem p ∧ a.ent = e.cEnt := by simpa using this
-      simp [hp, hm]
+      rw [this]
+      simp [hp]
     · simp [hp]
-  · simp only [dropPeer, Cfg.clean, Bool.false_or]
+  · simp only [removePeer, Cfg.clean, Bool.false_or]
     apply List.filter_congr
     intro e he
     by_cases hp : e.peer = p
     · have := hs.2 e he; rw [hp] at this
-      have hm : ∃ a, a ∈ s.rem p ∧ a.ent = e.cEnt := by simpa using this
-      simp [hp, hm]
+      rw [this]
+      simp [hp]
     · simp [hp]
 
 /-- the code as written: dropping peer 1 deletes peer 2's binding because both use entity [1] -/
 theorem c10_drop_any_peer_refutes :
     let fs : List Feat := [⟨[1], 1, 1, .client⟩]
     let s : St := { loc := [⟨[1], 1, 1, .server⟩], rem := fun _ => fs, binds := [⟨1, [1], 1, 2, [1], 1⟩] }
-    (dropPeer {} s 1).binds = [] := by decide
+    (removePeer {} s 1).binds = [] := by decide
 
 end Spine.Reg
